@@ -49,14 +49,16 @@ def _sizeguard_model(chk: Check, limits: list[int], maxreads: list[int], maxfram
 # real parsers behind SizeGuard
 
 
-def _file_serializer(limit: int) -> Any:
+def _file_serializer(limit: int, broad: bool = False) -> Any:
     from easynetwork.serializers.base_stream import FileBasedPacketSerializer
 
     class LengthPrefixed(FileBasedPacketSerializer[bytes, bytes]):
         """frame = 1 length byte + payload"""
 
         def __init__(self) -> None:
-            super().__init__(expected_load_error=(ValueError,), limit=limit)
+            # broad: a serializer that declares every Exception as an expected load error (as MessagePackSerializer does): the limit
+            # error raised by the guard must not be mistaken for one of them
+            super().__init__(expected_load_error=(Exception,) if broad else (ValueError,), limit=limit)
 
         def dump_to_file(self, packet: bytes, file: Any) -> None:
             file.write(bytes([len(packet)]) + packet)
@@ -96,7 +98,9 @@ def _record_sizeguard(kind: str, path: str, limit: int, maxread: int, frames: li
     from easynetwork.protocol import BufferedStreamProtocol, StreamProtocol
     from easynetwork.serializers.json import JSONSerializer
 
-    serializer = _file_serializer(limit) if kind == "file" else JSONSerializer(limit=limit, use_lines=False)
+    broad = kind == "file_broad"
+    kind = "file" if broad else kind
+    serializer = _file_serializer(limit, broad) if kind == "file" else JSONSerializer(limit=limit, use_lines=False)
     data = b"".join(_frame_bytes(kind, f, rng) for f in frames)
     assert len(data) == sum(frames), (kind, frames, data)
     events: list[dict[str, Any]] = []
@@ -111,6 +115,8 @@ def _record_sizeguard(kind: str, path: str, limit: int, maxread: int, frames: li
             return "more"
         except StreamProtocolParseError as exc:
             return "limit" if isinstance(exc.error, LimitOverrunError) else "err"
+        except Exception as exc:  # noqa: BLE001
+            return "crash:" + type(exc).__name__
 
     if path == "copy":
         consumer: Any = StreamDataConsumer(StreamProtocol(serializer))
@@ -133,7 +139,7 @@ def _record_sizeguard(kind: str, path: str, limit: int, maxread: int, frames: li
         pos += n
         held = len(consumer.get_buffer()) if (path == "copy" and k != "more") else -1
         events.append({"ev": "feed", "n": n, "k": k, "held": held})
-        if k in ("limit", "err"):
+        if k in ("limit", "err") or k.startswith("crash"):
             stop = True  # no resynchronisation is promised for these framings
             break
         while True:
@@ -143,7 +149,7 @@ def _record_sizeguard(kind: str, path: str, limit: int, maxread: int, frames: li
                 break
             held = len(consumer.get_buffer()) if path == "copy" else -1
             events.append({"ev": "drain", "n": 0, "k": k, "held": held})
-            if k in ("limit", "err"):
+            if k in ("limit", "err") or k.startswith("crash"):
                 stop = True
                 break
         if stop:
@@ -154,20 +160,64 @@ def _record_sizeguard(kind: str, path: str, limit: int, maxread: int, frames: li
         "par": {"kind": kind, "limit": limit, "maxread": maxread},
         "frames": frames,
         "events": events,
-        "meta": f"{kind} path={path} limit={limit} maxread={maxread} frames={frames} reads={chunking} bytes={data[:60]!r}",
+        "meta": f"{'file(expected_load_error=Exception)' if broad else kind} path={path} limit={limit} maxread={maxread} frames={frames} reads={chunking} bytes={data[:60]!r}",
     }
+
+
+BL_TRACE_CFG = "INIT TInit\nNEXT TNext\nCONSTANTS\n  Params = {}\nCONSTRAINT Constr\nPOSTCONDITION Post\nCHECK_DEADLOCK FALSE\n"
+
+
+def _to_boundlaw(t: dict[str, Any], payload: int, terminated: bool) -> dict[str, Any]:
+    """One-frame SepScan record -> BoundLaw trace: the reads up to the first outcome that ends the frame."""
+    evs = []
+    total = payload + (t["par"]["seplen"] if terminated else 0)
+    fed = 0
+    for e in t["events"]:
+        if e["ev"] != "read":
+            if e["ev"] in ("drain", "stuck") and e["k"] != "more":
+                evs.append({"ev": "read", "n": 0, "k": "unexpected:" + e["ev"] + ":" + e["k"], "held": -1})
+                break
+            continue
+        n = min(e["n"], total - fed)  # the recorder logs the size asked for; the last read gets what is left
+        if n <= 0:
+            continue
+        fed += n
+        evs.append({"ev": "read", "n": n, "k": e["k"], "held": e["held"] if e["k"] == "more" else -1})
+        if e["k"] != "more":
+            break
+    evs.append({"ev": "end", "n": 0, "k": "", "held": -1})
+    p = t["par"]
+    return {"par": {"limit": p["limit"], "seplen": p["seplen"], "maxread": p["maxread"], "payload": payload, "terminated": terminated}, "events": evs}
+
+
+def _validate_boundlaw(chk: Check, rec: list[tuple[dict[str, Any], int, bool]], label: str) -> None:
+    slim = [_to_boundlaw(t, n, term) for t, n, term in rec]
+    res = traces.validate("BoundLawTrace", slim, cfg_text=BL_TRACE_CFG, parallel=8, chunk=1500)
+    chk.traces += len(rec)
+    chk.states += res.tlc.distinct
+    chk.transitions += res.tlc.generated
+    chk.extra.setdefault("trace_batches", []).append({"label": label, "traces": len(rec), "events": res.nevents, "rejected": len(res.rejected)})
+    for idx, pos in sorted(res.rejected.items())[:40]:
+        t, n, term = rec[idx]
+        evs = slim[idx]["events"]
+        failing = evs[pos - 1] if 0 < pos <= len(evs) else None
+        chk.violation(
+            {"kind": "trace", "spec": "BoundLaw", "path": t["par"]["path"], "outcome": (failing or {}).get("k", "?")},
+            f"{label}: not allowed by BoundLaw (read #{pos}: {failing}) -- {t['meta'].split(' bytes=')[0]} payload={n} terminated={term} reads={[e['n'] for e in evs if e['ev'] == 'read']}",
+            {"kind": "boundlaw_trace", "trace": slim[idx], "meta": t["meta"][:300]},
+        )
 
 
 def _sizeguard_traces(chk: Check, rng: random.Random, quick: bool) -> None:
     rec: list[dict[str, Any]] = []
-    for kind in ("file", "json"):
+    for kind in ("file", "file_broad", "json"):
         for limit, maxread in ((8, 3), (12, 4)) if quick else ((8, 3), (12, 4), (20, 7), (64, 16)):
             lens = sorted(set(range(2, limit + maxread + 3)))
             frame_lists = [[f] for f in lens]
             frame_lists += [[a, b] for a in (2, 3, limit - maxread, limit - 1, limit) for b in (2, limit - maxread + 1, limit, limit + 1) if a >= 2 and b >= 2]
             frame_lists += [[2, 3, 2], [3, limit - maxread + 1, 2]]
             for frames in frame_lists:
-                if kind == "file" and any(f > 256 for f in frames):
+                if kind.startswith("file") and any(f > 256 for f in frames):
                     continue
                 total = sum(frames)
                 cks = sepharness.chunkings(total, maxread, rng, exhaustive_upto=9 if quick else 11, nrandom=3)
@@ -217,6 +267,7 @@ def run(chk: Check) -> None:
     cfgs = sepharness.configs()
     if quick:
         cfgs = [c for c in cfgs if "keep_end=True" not in c.name]
+    small_one_frame: list[tuple[dict[str, Any], int, bool]] = []
     for limit, maxread in ((5, 3), (16, 5)) if quick else ((5, 3), (8, 3), (16, 5), (64, 16)):
         rec: list[dict[str, Any]] = []
         for cfg in cfgs:
@@ -230,8 +281,36 @@ def run(chk: Check) -> None:
             rec += sepcheck.record_many([cfg], limit, streams, maxread, rng, exhaustive_upto=7 if quick else 9, nrandom=3, per_stream_cap=6 if quick else 30)
         for t in rec:
             chk.distinct.add(t["meta"])
+            sent = t["sent"]
+            npay = next((i for i, x in enumerate(sent) if x != 0), len(sent))
+            tail = tuple(sent[npay:])
+            seplen_t = t["par"]["seplen"]
+            if tail in ((), tuple(range(1, seplen_t + 1))):
+                small_one_frame.append((t, npay, bool(tail)))
         chk.sample({"meta": rec[-1]["meta"], "events": rec[-1]["events"][:6]}, cap=8)
         sepcheck.validate(chk, rec, f"long frames limit={limit} maxread={maxread}")
+    # the library's own scale: limits above the default read size (16 KiB), frames of tens of kilobytes, reads of 16 KiB
+    # (a limit handling that only goes wrong beyond the default buffer size is invisible at limit 5..64)
+    big_rec: list[tuple[dict[str, Any], int, bool]] = []
+    big_cfgs = [c for c in cfgs if "keep_end=True" not in c.name]
+    for limit, maxread in ((20000, 16384), (65536, 16384)) if quick else ((20000, 16384), (40000, 16384), (65536, 16384), (65536, 65536), (100000, 4096)):
+        for cfg in big_cfgs:
+            seplen = len(cfg.sep)
+            sep = tuple(range(1, seplen + 1))
+            lens = [16383, 16385, limit - seplen - 2, limit - 1, limit + 1, limit + maxread] if quick else [16383, 16384, 16385, 2 * 16384, limit - seplen - 2, limit - seplen, limit - 1, limit, limit + 1, limit + maxread, limit + maxread + seplen + 1]
+            for n in lens:
+                for term in (True, False):
+                    syms = (0,) * n + (sep if term else ())
+                    for path in ("copy", "buf"):
+                        if path == "buf" and not cfg.buffered:
+                            continue
+                        for ck in ([maxread] * (len(syms) // maxread + 1), [maxread - 1] * (len(syms) // (maxread - 1) + 1)):
+                            big_rec.append((sepharness.record(cfg, limit, path, syms, ck, maxread), n, term))
+    for t, _n, _term in big_rec:
+        chk.distinct.add(t["meta"].split(" bytes=")[0] + f" n={_n} {_term} " + str(t["meta"].split("reads=")[-1][:40]))
+    _validate_boundlaw(chk, big_rec, "library-scale limits (20000 .. 100000) with 16 KiB reads")
+    # the same law on the small one-frame records that SepScan has just judged byte by byte: the two must agree
+    _validate_boundlaw(chk, small_one_frame, "BoundLaw on the small one-frame streams (cross-check with SepScan)")
     _sizeguard_traces(chk, rng, quick)
     chk.evaluations = chk.traces
     chk.assumptions += [
